@@ -641,13 +641,21 @@ func (s *Session) Get(key string, def interface{}) interface{} {
 // deleted from the session.
 func (s *Session) GetAndDelete(key string, def interface{}) interface{} {
 	s.Lock()
-	defer s.Unlock()
 	value, ok := s.data[key]
 	if ok {
 		delete(s.data, key)
-		return value
 	}
-	return def
+	id := s.id
+	s.Unlock()
+	if !ok {
+		return def
+	}
+
+	// The sessions cache is write-through: forward the deletion to the
+	// persistence layer. This function cannot report an error, so (as in
+	// PurgeSessions) a failed save is not reported.
+	Persistence.SaveSession(id, s)
+	return value
 }
 
 // Delete deletes a key from the session. Note that since the sessions cache is
